@@ -106,6 +106,9 @@ func emitExec(tr *Trace, sc *Scenario, n int, res *execResult, st *driveStats) {
 	if schedSide != nil {
 		schedSide.Emit(M{"x": execSeq, "scenario": sc.Name, "sched": schedString(res.steps), "stuck": res.stuck, "panics": res.panics})
 	}
+	if strings.HasPrefix(sc.Name, "st-") && stepOut != "" && res.stuck == "" && !res.deadlock && !res.overrun && len(res.panics) == 0 {
+		emitSteps(sc, execSeq, res.steps)
+	}
 	st.Execs++
 	st.Events += len(res.events) + 2
 	st.Steps += len(res.steps)
@@ -253,6 +256,7 @@ func init() {
 		rng := rand.New(rand.NewSource(cm.seed))
 		tr := NewTrace(filepath.Join(cm.out, "trace.ndjson"))
 		schedSide = NewTrace(filepath.Join(cm.out, "scheds.ndjson"))
+		stepOut = cm.out
 		total := &driveStats{Distinct: map[string]bool{}}
 		var per []M
 		var samples []interface{}
@@ -291,7 +295,8 @@ func init() {
 		}
 		tr.Close()
 		schedSide.Close()
-		writeMeta(cm.out, M{"family": *fam, "execs": total.Execs, "events": tr.N, "steps": total.Steps, "distinct": len(total.Distinct),
+		stepFiles, stepEvents := closeStepSides()
+		writeMeta(cm.out, M{"step_files": stepFiles, "step_events": stepEvents, "family": *fam, "execs": total.Execs, "events": tr.N, "steps": total.Steps, "distinct": len(total.Distinct),
 			"deadlocks": total.Deadlocks, "stuck": total.Stuck, "stuck_msg": total.StuckMsg, "overruns": total.Overruns,
 			"scenarios": per, "samples": samples, "wall_s": time.Since(t0).Seconds()})
 		fmt.Printf("core %s: %d executions, %d events, %d steps in %.1fs\n", *fam, total.Execs, tr.N, total.Steps, time.Since(t0).Seconds())
